@@ -37,3 +37,37 @@ package treasure
 
 // Assumed: the read accessors of a record only read (they take the record's own RLock).
 //@ pureiface Treasure Get Is Uint32SliceGetAll Uint32SliceSize
+
+// ---------------------------------------------------------------------------------------
+// Persistence form of a record (property C05: close and reload preserve every record).
+// The gob codec itself is external and only ASSUMED to round-trip what it is given (and it is known
+// not to: it drops zero-valued fields -- that part of C05 is not decided here). Under contract:
+//   ConvertToByte  hands the encoder the record's OWN complete model (key, content, created / modified /
+//                  deleted / expiry metadata), not a copy that could differ, and returns the encoder's
+//                  bytes; encoder and guard errors are reported;
+//   LoadFromByte   decodes INTO the record's own model from exactly the bytes given and then binds the
+//                  record to the file it was loaded from (a reloaded record counts as persisted);
+//                  decoder and guard errors are reported.
+//@ trusted func encoding/gob.NewEncoder(w) (enc)
+//@   ensures enc != nil
+//@ trusted func encoding/gob.NewDecoder(r) (dec)
+//@   ensures dec != nil
+//@ trusted func (*encoding/gob.Encoder).Encode(enc, e) (err)
+//@ trusted func (*encoding/gob.Decoder).Decode(dec, e) (err)
+
+//@ func (*treasure).ConvertToByte(t, guardID) (out, err)
+//@   property C05
+//@   modifies *
+//@   before Encoder.Encode [the_record_itself_is_encoded] unboxed(arg1) == t.treasure && isnil(lastret("Guard.CanExecute"))
+//@   ensures[guard_refusal_reported] !isnil(lastret("Guard.CanExecute")) ==> err != nil && calls("Encoder.Encode") == old(calls("Encoder.Encode"))
+//@   ensures[encoded_once] err == nil ==> calls("Encoder.Encode") == old(calls("Encoder.Encode")) + 1 && isnil(lastret("Encoder.Encode")) && calls("Buffer.Bytes") == old(calls("Buffer.Bytes")) + 1
+//@   ensures[encoder_failure_reported] calls("Encoder.Encode") > old(calls("Encoder.Encode")) && !isnil(lastret("Encoder.Encode")) ==> err != nil
+//@   ensures[record_unchanged] t.treasure == old(t.treasure)
+
+//@ func (*treasure).LoadFromByte(t, guardID, b, fileName) (err)
+//@   property C05
+//@   modifies *
+//@   before NewReader [decodes_the_given_bytes] sliceid(arg0) == sliceid(b) && sliceoff(arg0) == sliceoff(b) && len(arg0) == len(b)
+//@   ensures[guard_refusal_reported] !isnil(lastret("Guard.CanExecute")) ==> err != nil && calls("Decoder.Decode") == old(calls("Decoder.Decode"))
+//@   ensures[decoder_failure_reported] calls("Decoder.Decode") > old(calls("Decoder.Decode")) && !isnil(lastret("Decoder.Decode")) ==> err != nil
+//@   ensures[loaded_record_is_bound_to_its_file] err == nil ==> calls("Decoder.Decode") == old(calls("Decoder.Decode")) + 1 && t.treasure.FileName != nil && deref(t.treasure.FileName) == fileName
